@@ -116,6 +116,49 @@ def coverage_report(ctx, env_sets):
     return {"blocks": len(counts), "unreached": ["%s:%d-%d" % k for k in unreached]}
 
 
+def drivers_and_validation(ctx, binary, quick, classify, res):
+
+    # 2. (b) the real LockPile, one primitive operation at a time.
+    sched_env = {"VERIF_PREEMPTIONS": 2, "VERIF_SCHEDULES": 250} if quick else {"VERIF_PREEMPTIONS": 3, "VERIF_SCHEDULES": 1500}
+    p1, res["sched"] = drive(ctx, binary, "TestLockPileSchedules", "lp_sched", sched_env)
+    p2, _ = drive(ctx, binary, "TestLockPileRandom", "lp_rand", {"VERIF_N": 150 if quick else 600, "VERIF_STEPS": 60})
+    lp = concat(ctx, "lockpile.ndjson", [p1, p2])
+    vlib.validate_traces(ctx, lp, LP_TRACE, LP_CFG, LP_DEPS, "lockpile", classify=classify,
+                         timeout=3600, max_failures=4)
+    ctx.cov["samples"] += vlib.sample_lines(p2, 6)
+
+    # 3. (a) lock balance of every call, every outcome class.
+    paths = []
+    p, res["sweep"] = drive(ctx, binary, "TestDirSweep", "dir_sweep", {})
+    paths.append(p)
+    p, _ = drive(ctx, binary, "TestDirRandom", "dir_rand", {"VERIF_N": 30 if quick else 200, "VERIF_STEPS": 120})
+    paths.append(p)
+    ctx.cov["samples"] += vlib.sample_lines(p, 4)
+    n = 30 if quick else 200
+    for test, label in (("TestFileRandom", "file"), ("TestOpenedFilesPoolRandom", "ofp"),
+                        ("TestIdleInvokerRandom", "idle"), ("TestSectorAllocatorRandom", "sector")):
+        p, _ = drive(ctx, binary, test, label, {"VERIF_N": n})
+        paths.append(p)
+
+    # 4. (c) concurrent calls with the deadlock watchdog.
+    conc_env = {"VERIF_ROUNDS": 30 if quick else 300, "VERIF_WORKERS": 6, "VERIF_OPS": 400}
+    p, res["conc"] = drive(ctx, binary, "TestDirConcurrent", "conc", conc_env, timeout=3000)
+    paths.append(p)
+
+    lb = concat(ctx, "balance.ndjson", paths)
+    vlib.validate_traces(ctx, lb, LB_TRACE, LB_CFG, LB_DEPS, "balance", classify=classify,
+                         timeout=3600, max_failures=4)
+    res["exercised"] = report_exercised(ctx, "balance")
+
+    if not quick and not ctx.violations:
+        res["cover"] = coverage_report(ctx, [("TestDirSweep", {}),
+                                      ("TestDirRandom", {"VERIF_N": 60}),
+                                      ("TestFileRandom", {"VERIF_N": 100}),
+                                      ("TestDirConcurrent", {"VERIF_ROUNDS": 20}),
+                                      ("TestLockPileRandom", {"VERIF_N": 100})])
+
+
+
 def run(ctx):
     quick = ctx.quick()
     classify = vlib.classify_for(ctx.prop)
@@ -135,46 +178,18 @@ def run(ctx):
     vlib.design_check(ctx, "LockBalance.tla", "MC_LockBalance.cfg", [], timeout=600, workers=1, heap="1g", label="LockBalance")
 
     binary = vlib.go_build_test(ctx, "locks")
-
-    # 2. (b) the real LockPile, one primitive operation at a time.
-    sched_env = {"VERIF_PREEMPTIONS": 2, "VERIF_SCHEDULES": 250} if quick else {"VERIF_PREEMPTIONS": 3, "VERIF_SCHEDULES": 1500}
-    p1, meta_sched = drive(ctx, binary, "TestLockPileSchedules", "lp_sched", sched_env)
-    p2, _ = drive(ctx, binary, "TestLockPileRandom", "lp_rand", {"VERIF_N": 150 if quick else 600, "VERIF_STEPS": 60})
-    lp = concat(ctx, "lockpile.ndjson", [p1, p2])
-    vlib.validate_traces(ctx, lp, LP_TRACE, LP_CFG, LP_DEPS, "lockpile", classify=classify,
-                         timeout=3600, max_failures=4)
-    ctx.cov["samples"] += vlib.sample_lines(p2, 6)
-
-    # 3. (a) lock balance of every call, every outcome class.
-    paths = []
-    p, meta_sweep = drive(ctx, binary, "TestDirSweep", "dir_sweep", {})
-    paths.append(p)
-    p, _ = drive(ctx, binary, "TestDirRandom", "dir_rand", {"VERIF_N": 30 if quick else 200, "VERIF_STEPS": 120})
-    paths.append(p)
-    ctx.cov["samples"] += vlib.sample_lines(p, 4)
-    n = 30 if quick else 200
-    for test, label in (("TestFileRandom", "file"), ("TestOpenedFilesPoolRandom", "ofp"),
-                        ("TestIdleInvokerRandom", "idle"), ("TestSectorAllocatorRandom", "sector")):
-        p, _ = drive(ctx, binary, test, label, {"VERIF_N": n})
-        paths.append(p)
-
-    # 4. (c) concurrent calls with the deadlock watchdog.
-    conc_env = {"VERIF_ROUNDS": 30 if quick else 300, "VERIF_WORKERS": 6, "VERIF_OPS": 400}
-    p, meta_conc = drive(ctx, binary, "TestDirConcurrent", "conc", conc_env, timeout=3000)
-    paths.append(p)
-
-    lb = concat(ctx, "balance.ndjson", paths)
-    vlib.validate_traces(ctx, lb, LB_TRACE, LB_CFG, LB_DEPS, "balance", classify=classify,
-                         timeout=3600, max_failures=4)
-    exercised = report_exercised(ctx, "balance")
-
-    cover = None
-    if not quick and not ctx.violations:
-        cover = coverage_report(ctx, [("TestDirSweep", {}),
-                                      ("TestDirRandom", {"VERIF_N": 60}),
-                                      ("TestFileRandom", {"VERIF_N": 100}),
-                                      ("TestDirConcurrent", {"VERIF_ROUNDS": 20}),
-                                      ("TestLockPileRandom", {"VERIF_N": 100})])
+    res = {"sched": {}, "sweep": {}, "conc": {}, "exercised": {}, "cover": None}
+    try:
+        drivers_and_validation(ctx, binary, quick, classify, res)
+    except vlib.Infra as e:
+        # A tree that already failed the property may also crash a later
+        # driver (e.g. a fixture cannot be built any more): the verdict
+        # stands on what was observed before.
+        if not ctx.violations:
+            raise
+        vlib.log("NOTE a later step could not be completed after violations were found: %s" % str(e)[:600])
+    meta_sched, meta_sweep, meta_conc = res["sched"], res["sweep"], res["conc"]
+    exercised, cover = res["exercised"], res["cover"]
 
     return vlib.finish(
         ctx,
